@@ -20,7 +20,7 @@ Layout of a running chibicc frame (addresses grow upwards):
 
 The instruction list is regenerated from the source (`Gen.C04.allocaLines`) and pinned below (`allocaLines_shape`), the
 constants 15 / 0xfffffff0 / the 32-bit `and` are regenerated (`ALLOCA_ROUND`, `ALLOCA_MASK`, `ALLOCA_MASK_32BIT`).
-Addresses are `Int` (no wrap-around: the stack neither underflows the address space nor is its exhaustion modelled).
+Intesses are `Int` (no wrap-around: the stack neither underflows the address space nor is its exhaustion modelled).
 Core Lean only.
 -/
 import ChibiVerif.Gen.C04Gen
@@ -28,8 +28,7 @@ import ChibiVerif.Gen.C04Gen
 namespace ChibiVerif.Alloca
 open ChibiVerif.Gen.C04 ChibiVerif.Asm
 
-abbrev Addr := Int
-abbrev Mem := Addr → BitVec 8
+abbrev Mem := Int → BitVec 8
 
 /-- `add $15, %rdi; and $0xfffffff0, %edi` on a 64-bit argument: the size actually reserved -/
 def allocaSize (n : BitVec 64) : Nat :=
@@ -38,21 +37,21 @@ def allocaSize (n : BitVec 64) : Nat :=
   else (r &&& BitVec.ofNat 64 ALLOCA_MASK).toNat
 
 /-- the loop `1: … jmp 1b`: `cnt` bytes from `src` to `dst`, lowest address first -/
-def copyUp (m : Mem) (src dst : Addr) : Nat → Mem
+def copyUp (m : Mem) (src dst : Int) : Nat → Mem
   | 0 => m
   | cnt + 1 => copyUp (fun a => if a = dst then m src else m a) (src + 1) (dst + 1) cnt
 
 structure Block where
-  addr : Addr
+  addr : Int
   size : Nat
   deriving DecidableEq, Repr
 
 structure State where
-  rsp : Addr
+  rsp : Int
   /-- the value of the local `__alloca_size__` (`current_fn->alloca_bottom`) -/
-  bottom : Addr
+  bottom : Int
   /-- lowest address of the locals: rbp - stack_size (the prologue sets rsp = bottom = frameLow) -/
-  frameLow : Addr
+  frameLow : Int
   mem : Mem
   /-- blocks handed out so far, newest first -/
   blocks : List Block
@@ -61,7 +60,7 @@ inductive Op where
   | push (v : BitVec 64)      -- `push %rax` and every other 8-byte growth of the temporaries
   | pop                       -- `pop %reg` / `add $8, %rsp`
   | alloca (n : BitVec 64)    -- the sequence above with n in %rdi
-  | write (a : Addr) (b : BitVec 8)   -- a store of the program through a pointer (into a block, a local, …)
+  | write (a : Int) (b : BitVec 8)   -- a store of the program through a pointer (into a block, a local, …)
   deriving Repr
 
 inductive Fail where
@@ -69,7 +68,7 @@ inductive Fail where
   deriving DecidableEq, Repr
 
 /-- little-endian 8-byte store -/
-def write64 (m : Mem) (a : Addr) (v : BitVec 64) : Mem :=
+def write64 (m : Mem) (a : Int) (v : BitVec 64) : Mem :=
   fun x => if a ≤ x ∧ x < a + 8 then (v >>> (8 * (x - a).toNat)).setWidth 8 else m x
 
 /-- one step; `alloca` also yields the block it returns (pointer in %rax = new bottom) -/
@@ -96,7 +95,7 @@ def run : State → List Op → Except Fail (State × List Block)
       | .ok (s'', bs) => .ok (s'', b.toList ++ bs)
 
 /-- state right after the prologue (`sub $stack_size, %rsp; mov %rsp, bottom(%rbp)`) -/
-def init (frameLow : Addr) (m : Mem) : State :=
+def init (frameLow : Int) (m : Mem) : State :=
   { rsp := frameLow, bottom := frameLow, frameLow := frameLow, mem := m, blocks := [] }
 
 /-- the emitted instruction list, pinned: a change of builtin_alloca in codegen.c changes `allocaLines` and breaks this
